@@ -21,6 +21,13 @@ PROJECTS = {
     'footnotes': {'fn/__init__.py': '__docformat__ = "restructuredtext"\n"""\nText with a footnote [1]_ and another [#named]_.\n\n.. [1] The first.\n.. [#named] The second.\n"""\n'
                                    'def f():\n    """Cites [CIT2002]_.\n\n    .. [CIT2002] A citation.\n    """\n'},
     'reexport_defaults': {'rd/__init__.py': 'from rd._impl import f\n__all__ = ["f"]\n', 'rd/_impl.py': 'def g(): "doc"\nCONST = 1\ndef f(a=g, b=CONST, c: "g" = None):\n    "uses L{g}"\n'},
+    # inheritance across an import cycle (the base is only resolved in post-processing); a nested class whose base list and
+    # annotations name attributes of the enclosing class
+    'cycle_and_nested': {'cy/__init__.py': '"""Package."""\n', 'cy/a.py': 'from cy.b import B\nclass A(B):\n    "doc"\n    def m(self): "doc"\n',
+                         'cy/b.py': 'from cy import a\nclass B:\n    "doc"\n    def m(self): "doc"\nclass Derived(a.A):\n    "doc"\nclass Deeper(Derived):\n    def m(self): pass\n',
+                         'cy/reg.py': 'from typing import Dict, Union, List\nclass Registry:\n    "doc"\n    Key = Union[str, bytes]\n    "the key type"\n    class Row:\n        "doc"\n'
+                                      '    class Table(Dict[Key, int]):\n        "doc"\n        first: Key = None\n        "doc"\n        def get(self, k: Key, rows: List[Row] = ()) -> Row:\n            "doc"\n'
+                                      '    def lookup(self, k: Key) -> Table:\n        "doc"\n'},
     'two_roots': {'alpha.py': '"""Alpha. See L{beta.B}."""\nclass A: pass\n', 'beta.py': 'class B:\n    def m(self): pass\n'},
 }
 
@@ -37,6 +44,7 @@ def _cases(tier, seed):
     yield {'privacy': 0, 'project': 'footnotes'}
     yield {'privacy': 0, 'project': 'reexport_defaults'}
     yield {'privacy': 0, 'project': 'toc_sections', 'extra': ['--theme', 'readthedocs', '--sidebar-expand-depth', '1']}
+    yield {'privacy': 0, 'project': 'cycle_and_nested'}
     yield {'privacy': 0, 'project': 'summary_names'}
     yield {'privacy': 0, 'project': 'index_root'}
     yield {'privacy': 0, 'project': 'two_roots', 'rules': ['HIDDEN:beta']}
